@@ -9,6 +9,7 @@ FAMILY = "analyze"
 HARNESS = {"source": "x_analyze.c", "leak_clean": True}
 RULE = ("exhaustive: every string of length <= 3 (quick) / <= 4 (thorough) over a 20-symbol alphabet of syntactically significant "
         "units (TAB LF VT CR SP \" # $ ' . ; ? [ \\ ] _ a { } U+03B1) x allow_unquoted x allow_triple x limit in {6, 8, 12, 2048}; "
+        "all strings of length <= 5 over {' \" x} and <= 4 over {' \" ; LF x} (quote structure) x flags; "
         "plus seeded boundary strings of length limit-7 .. limit+1 (single line, multi-line with LF / CR / CR LF terminators, "
         "embedded and trailing quote runs, reserved words); non-trivial = non-empty string; oracle (implementation only): "
         "statistics recomputed by line splitting, delimiter permitted + admissible + simple-form preference, and the probe "
@@ -92,6 +93,19 @@ def generate(seed, tier):
                 for unq in (0, 1):
                     for tri in (0, 1):
                         yield req(s, unq, tri, limit)
+    # quote structure (both tiers): which of ' " ''' """ occur, and what the string ends in, decides between the four quoted forms —
+    # all strings of length <= 5 over {', ", x} and of length <= 4 over {', ", ;, LF, x}
+    seen_q = set()
+    for alpha, top in (([39, 34, 120], 5), ([39, 34, 59, 10, 120], 4)):
+        for n in range(0, top + 1):
+            for s in itertools.product(alpha, repeat=n):
+                if s in seen_q:
+                    continue
+                seen_q.add(s)
+                for unq, tri in ((0, 1), (1, 1), (0, 0)):
+                    yield req(s, unq, tri, 2048)
+                yield req(s, 0, 1, 12)
+                yield req(s, 0, 1, 8)
     # reserved words and near misses as whole strings (the unquoted branch consults cif_is_reserved_string)
     for w in ["data_", "data_x", "DATA_x", "dAtA_", "data", "save_", "save_a", "SaVe_", "loop_", "LOOP_", "loop_a", "stop_", "stop_x",
               "global_", "GLOBAL_", "global_x", "globa", "sav", "st", "stop", "?", ".", "??", "..", "-", "1.5", "1e5", "+", "a"]:
